@@ -1,5 +1,5 @@
 """C01 — a header selects a handler iff it spells the declared short/long forms."""
-import itertools
+import itertools, re
 from ..common import Case, hx, parse_fields, parse_list, is_crash, log_entries
 from .. import gen as G
 from .. import spell
@@ -133,8 +133,8 @@ def header_cases(rng, iface, tier):
                     other = rng.choice(iface.decls)
                     op = spell.parse_decl(other.cmd)[0]
                     mm[k] = G.spell_part(rng, rng.choice(op)[1])
-                if any(not m for m in mm):
-                    continue
+                if any(not re.match(r'^\*?[A-Za-z][A-Za-z0-9_]*$', m) for m in mm):
+                    continue   # not a program mnemonic any more (e.g. a lone `*`): a syntax error, not a header
                 star = [m for m in mm if m.startswith('*')]
                 if star and (len(mm) > 1):
                     continue   # '*' below the first level is not a header the lexer produces
